@@ -164,3 +164,82 @@ func namesCheck(res *ev.Result, lc *local) {
 		}
 	}
 }
+
+// reuseCheck: one builder holding register AND coil fields is asked for requests several times (holding, input, holding
+// again ...): what it was asked before must not change what it answers now - every call is evaluated like a first call.
+func reuseCheck(res *ev.Result, lc *local) {
+	mk := func(i int, typ uint8, addr uint16) modbus.Field {
+		return modbus.Field{Name: fmt.Sprintf("f%d", i), ServerAddress: "A", UnitID: 1, Address: addr, Type: modbus.FieldType(typ)}
+	}
+	lists := [][]modbus.Field{
+		{mk(0, 14, 3), mk(1, 5, 10), mk(2, 14, 4), mk(3, 7, 12), mk(4, 14, 900)},
+		{mk(0, 5, 10), mk(1, 14, 3), mk(2, 9, 300), mk(3, 14, 4), mk(4, 6, 11)},
+		{mk(0, 14, 1), mk(1, 14, 2), mk(2, 5, 10), mk(3, 5, 11)},
+	}
+	calls := [][]int{{0, 1, 0}, {1, 0, 1}, {0, 0}, {2, 0, 3, 1}, {3, 2, 0}}
+	for li, fields := range lists {
+		for _, seq := range calls {
+			lc.evals++
+			b := modbus.NewRequestBuilder("dflt:9", 9)
+			for i := range fields {
+				b.Add(&modbus.BField{Field: fields[i]})
+			}
+			for step, which := range seq {
+				var reqs []modbus.BuilderRequest
+				var err error
+				pan := ""
+				func() {
+					defer func() {
+						if rec := recover(); rec != nil {
+							pan = fmt.Sprint(rec)
+						}
+					}()
+					switch which {
+					case 0:
+						reqs, err = b.ReadHoldingRegistersTCP()
+					case 1:
+						reqs, err = b.ReadInputRegistersRTU()
+					case 2:
+						reqs, err = b.ReadCoilsTCP()
+					default:
+						reqs, err = b.ReadDiscreteInputsRTU()
+					}
+				}()
+				bad := func(kind, msg string) {
+					res.Violate(ev.Violation{Check: "builder-names", Kind: kind, Attrs: map[string]any{"path": "reuse"},
+						Msg:  fmt.Sprintf("builder with fields %d, calls %v: call %d: %s", li, seq, step, msg),
+						Case: NameCase{Path: "reuse"}})
+				}
+				if pan != "" || err != nil {
+					bad("build-error-on-valid-fields", fmt.Sprintf("panic=%q err=%v", pan, err))
+					break
+				}
+				wantCoil := which >= 2
+				seen := map[string]int{}
+				for _, r := range reqs {
+					for _, f := range r.Fields {
+						seen[f.Name]++
+						if (f.Type == modbus.FieldTypeCoil) != wantCoil {
+							bad("field-of-other-kind", fmt.Sprintf("field %s of the other kind is part of the request", f.Name))
+						}
+					}
+				}
+				broken := false
+				for _, f := range fields {
+					want := 0
+					if (f.Type == modbus.FieldTypeCoil) == wantCoil {
+						want = 1
+					}
+					if seen[f.Name] != want {
+						bad("field-coverage", fmt.Sprintf("field %s appears %d times in the requests, want %d", f.Name, seen[f.Name], want))
+						broken = true
+						break
+					}
+				}
+				if broken {
+					break
+				}
+			}
+		}
+	}
+}
